@@ -39,7 +39,10 @@ TRUSTED = ['numpy', 'libm log2/exp in the Lean runtime within 1e-9']
 # round 4 (c19_r4.py): option paths of integral / moments, radial polynomial of the Zernike kernel
 RULE += (' Round 4: surf.integral with in_place / every integer and float output dtype / float->integer and integer->float '
          'conversions / byte-swapped input and requested dtypes x 7 layouts; moments with normalize/normalise, cm=None, '
-         'convert_to_float off; the radial polynomial R_n^l of _zernike.znl for every (n, l) with n <= 24.')
+         'convert_to_float off; the radial polynomial R_n^l of _zernike.znl for every (n, l) with n <= 24; a size-threshold '
+         'stream for integral / moments (257x256, 1x65537, 65537x1, 255x257 images: element counts and sums crossing 2^8, 2^15, '
+         '2^16, 2^24, 2^31, 2^32), judged by an exact O(N) Python oracle (prefix sums in Python integers / rational moments) that '
+         'is compared with the Lean specification on every small case (integral:spec-vs-python) - the Lean spec is quadratic.')
 ASSUMPTIONS += ['integral (round 4): float -> integer conversions only for values inside the target range (numpy cast otherwise '
                 'undefined); in_place is not asked on read-only arrays (the wrapper does not check the flag: observation in '
                 'the report, outside the statement); in_place on a byte-swapped array must raise ValueError and leave it alone',
